@@ -424,7 +424,7 @@ impl Property for C11 {
     fn budget(&self, tier: Tier) -> (u32, usize) {
         match tier {
             Tier::Quick => (150_000, 8),
-            Tier::Thorough => (3_000_000, 16),
+            Tier::Thorough => (5_000_000, 16),
         }
     }
     fn run(&self, case: &CoCase) -> Report {
